@@ -113,9 +113,16 @@ package extractor
 //@   requires links != nil
 //@   let l0 = *links
 //@   modifies *links, elem::string
+//@   local nElem int = 0
+//@   local nDirect int = 0
+//@   after findURLs(element)#1: nElem = nElem + 1
+//@   after isValidURL(v)#1: nDirect = nDirect + 1
+//@   loop range invariant [every-element] nElem == rangeindex + 1 && istype(data, []interface{}) && rangeindex < len(unbox(data, []interface{})) // one recursive visit per array element, in order
 //@   loop range invariant [grows] -1 <= rangeindex && len(*links) >= len(l0) && forall(j, 0, len(l0), (*links)[j] == old((*links)[j]))
 //@   loop rangemap invariant [grows] len(*links) >= len(l0) && forall(j, 0, len(l0), (*links)[j] == old((*links)[j]))
 //@   ensures [grows] len(*links) >= len(l0) && forall(j, 0, len(l0), (*links)[j] == old((*links)[j])) // C19: every string value at any nesting depth ... is discovered (links found so far are kept)
+//@   ensures [visits-array] istype(data, []interface{}) ==> nElem == len(unbox(data, []interface{})) // C19: every string value at any nesting depth is discovered (an array is descended into element by element, whatever its first element is)
+//@   ensures [tests-string] istype(data, string) ==> nDirect == 1 // C19: every string value ... that is an absolute http(s) URL is discovered (every string leaf is put to the URL test)
 
 // GetURLsFromJSON: the asset/outlink split of the discovered links.
 //@ func GetURLsFromJSON
